@@ -145,6 +145,10 @@ pub fn check(c: &Case) -> CheckResult {
     o.class_if(c.arcs.iter().any(|(at, _)| *at == 0), "arc-first");
     o.class_if(curves, "has-curve");
     o.class_if(c.as_clip, "as-clip-path");
+    {
+        let starts: Vec<(f32, f32)> = c.path.ops.iter().filter_map(|o| if let POp::M(x, y) = *o { Some((x, y)) } else { None }).collect();
+        o.class_if(starts.len() >= 6 && starts.iter().all(|p| *p == starts[0]), "fan-of-six-or-more-slices-sharing-an-apex");
+    }
     o.class_if(c.path.evenodd, "evenodd");
     o.class(classify_xf(&c.xf));
     let mut after_close = false;
@@ -297,12 +301,48 @@ pub fn path_strategy(ext: f32) -> BoxedStrategy<(PathSpec, Vec<(u32, [f32; 5])>)
         .boxed()
 }
 
+/// a fan: 6..16 triangular slices sharing one apex, each its own closed subpath, listed by increasing or by
+/// decreasing angle (a pie chart, a sunburst): many edges start at one point, and in one of the two listing orders
+/// the order in which they were added is the reverse of their order along every row below the apex
+fn fan_strategy(ext: f32) -> BoxedStrategy<PathSpec> {
+    (0.2f32..0.8, 0.0f32..0.45, 5.0f32..40.0, prop::collection::vec((prop::sample::select(vec![2.5f32, 4.0, 6.0, 10.0, 40.0]), 2.0f32..5.0), 6..=16), 0.8f32..2.5, any::<bool>(), any::<bool>(), 0.0f32..360.0)
+        .prop_map(move |(fx, fy, a0, slices, r, rev, evenodd, turn)| {
+            let (ax, ay) = (((fx * ext) * 4.0).round() / 4.0, ((fy * ext) * 4.0).round() / 4.0);
+            let r = r * ext;
+            // half of the fans point downwards from an apex near the top (slices between 5 and 175 degrees, y down);
+            // the others are turned by any angle
+            let turn = if (slices.len() + rev as usize) % 2 == 0 { 0.0 } else { turn };
+            let mut tris: Vec<[(f32, f32); 2]> = Vec::new();
+            let mut a = a0;
+            for (wd, gap) in &slices {
+                if a + wd > 175.0 {
+                    break;
+                }
+                let p = |deg: f32| {
+                    let t = ((deg + turn) as f64).to_radians();
+                    (ax + (r as f64 * t.cos()) as f32, ay + (r as f64 * t.sin()) as f32)
+                };
+                tris.push([p(a), p(a + wd)]);
+                a += wd + gap;
+            }
+            if rev {
+                tris.reverse();
+            }
+            let mut ops = Vec::new();
+            for t in &tris {
+                ops.extend([POp::M(ax, ay), POp::L(t[0].0, t[0].1), POp::L(t[1].0, t[1].1), POp::Z]);
+            }
+            PathSpec { ops, evenodd }
+        })
+        .boxed()
+}
+
 pub fn strategy() -> BoxedStrategy<Case> {
     (12i32..=32, 12i32..=32)
         .prop_flat_map(|(w, h)| {
             let ext = w.max(h) as f32;
             let zoom = prop_oneof![12 => Just(1.0f32), 1 => Just(4096.0f32), 1 => Just(65536.0f32), 1 => Just(1.0f32 / 64.0), 1 => Just(1.0f32 / 4096.0)];
-            (Just((w, h)), path_strategy(ext), prop_oneof![3 => Just(IDENT), 4 => xf_invertible(6.0)], prop::bool::weighted(0.3), zoom)
+            (Just((w, h)), prop_oneof![14 => path_strategy(ext), 1 => fan_strategy(ext).prop_map(|p| (p, Vec::new()))], prop_oneof![3 => Just(IDENT), 4 => xf_invertible(6.0)], prop::bool::weighted(0.3), zoom)
         })
         .prop_map(|((w, h), (path, arcs), xf, as_clip, zoom)| {
             // keep device-space geometry within the working range (+-4000 px)
@@ -346,10 +386,10 @@ pub fn strategy() -> BoxedStrategy<Case> {
 pub fn property(_ctx: &Ctx) -> Property {
     Property {
         id: "C08",
-        rule: "cases: paths of 2-8 ops mixing move/line/quad/cubic/arc/close in any order (curve first, directly after close, cusps, coincident control points, control points up to +-1500 units), both winding rules, identity / translation / rotation x scale / non-uniform scale / shear / mirror transforms (device geometry within +-4000 px), optionally with user space zoomed (units 4096 or 65536 times smaller, or 64 times larger, under a correspondingly scaled CTM), used as fill path or as clip path (in a third of the cases after an unrelated clip path was pushed and popped), white on transparent, 12..32 px surfaces. Oracle: f64 path walker with the statement's cursor rules, curves evaluated densely (<=0.08 px steps), winding number and distance to the outline per pixel centre; a pixel whose centre is more than 1 px + half a pixel diagonal from the outline must be exactly 0xffffffff when inside by the rule and exactly 0 when outside. Non-trivial: path with >=1 curve and >=1 judged-inside and >=1 judged-outside pixel; distinct by hash of the case.",
+        rule: "cases: paths of 2-8 ops mixing move/line/quad/cubic/arc/close in any order (curve first, directly after close, cusps, coincident control points, control points up to +-1500 units), one case in fifteen a fan of 6..16 triangular slices sharing an apex and listed by increasing or decreasing angle (many edges through one point), both winding rules, identity / translation / rotation x scale / non-uniform scale / shear / mirror transforms (device geometry within +-4000 px), optionally with user space zoomed (units 4096 or 65536 times smaller, or 64 times larger, under a correspondingly scaled CTM), used as fill path or as clip path (in a third of the cases after an unrelated clip path was pushed and popped), white on transparent, 12..32 px surfaces. Oracle: f64 path walker with the statement's cursor rules, curves evaluated densely (<=0.08 px steps), winding number and distance to the outline per pixel centre; a pixel whose centre is more than 1 px + half a pixel diagonal from the outline must be exactly 0xffffffff when inside by the rule and exactly 0 when outside. Non-trivial: path with >=1 curve and >=1 judged-inside and >=1 judged-outside pixel; distinct by hash of the case.",
         assumptions: vec!["pixels within 1.71 px of the outline are not judged (counted as undecided)", "arcs are made with PathBuilder::arc on the same builder as the other ops and judged against the true circle (line to the starting point, then the circular arc; C20 bounds the radial error by 0.5 % of r, far inside the 1 px margin here)"],
         parts: vec![part("fill", 80_000, 1_500_000, strategy, check)],
-        min_class_fraction: vec![("fill", "has-curve", 0.8), ("fill", "as-clip-path", 0.15), ("fill", "draw-after-close", 0.05), ("fill", "non-monotonic-quad", 0.15), ("fill", "far-control-point", 0.05), ("fill", "curve-starts-above-row0", 0.1), ("fill", "control-point-level-with-endpoint", 0.1), ("fill", "arc", 0.2), ("fill", "arc-directly-after-close", 0.02)],
+        min_class_fraction: vec![("fill", "has-curve", 0.7), ("fill", "fan-of-six-or-more-slices-sharing-an-apex", 0.025), ("fill", "as-clip-path", 0.15), ("fill", "draw-after-close", 0.05), ("fill", "non-monotonic-quad", 0.15), ("fill", "far-control-point", 0.05), ("fill", "curve-starts-above-row0", 0.1), ("fill", "control-point-level-with-endpoint", 0.1), ("fill", "arc", 0.2), ("fill", "arc-directly-after-close", 0.02)],
         panic_is_violation: false,
     }
 }
